@@ -159,6 +159,7 @@ func (v *Verifier) prelude(theory string) string {
 (declare-fun f2i (F64) Int)
 (declare-fun f2u (F64) Int)
 (declare-fun errIs (Int Int) Bool)
+(declare-fun strof (Val) String)
 (declare-fun trg (Int) Bool)
 (assert (forall ((x Int)) (! (trg x) :pattern ((trg x)))))
 (declare-fun trgk (Int) Bool)
@@ -215,11 +216,19 @@ func (v *Verifier) prelude(theory string) string {
 		strings.Join(isU, " "), strings.Join(isI, " "), isF32, isTime)
 	fmt.Fprintf(&sb, "(define-fun supported ((v Val)) Bool (and (normable v) (not (isnan (norm v)))))\n")
 	fmt.Fprintf(&sb, "(define-fun castRank ((c String)) Int (ite (= c \"int64\") 1 (ite (= c \"uint64\") 2 (ite (= c \"float64\") 3 (ite (= c \"string\") 4 0)))))\n")
-	switch theory {
-	case "concrete":
+	flags := map[string]bool{}
+	for _, w := range strings.Fields(theory) {
+		flags[w] = true
+	}
+	if flags["concrete"] {
 		sb.WriteString(preludeOrderConcrete)
-	default:
+	} else {
 		sb.WriteString(preludeOrderAbstract)
+	}
+	if flags["paths"] {
+		sb.WriteString(preludePathsConcrete)
+	} else {
+		sb.WriteString(preludePathsAbstract)
 	}
 	for _, f := range sortedKeys(v.spec.SmtFuns) {
 		sf := v.spec.SmtFuns[f]
